@@ -2,10 +2,13 @@ CONSTANTS
   Bases <- MCBases
   Seeds <- MCSeeds
   Steps <- MCSteps
+  Exps <- MCExps
 SPECIFICATION Spec
 INVARIANT TypeOK
 INVARIANT RegroupAgrees
 INVARIANT CanonSame
 INVARIANT Extremes
+INVARIANT EveryValueInRange
+INVARIANT ScaledOutside
 INVARIANT Export
 PROPERTY SuccAddsOne
